@@ -77,7 +77,7 @@ META.update({
 META.update({
  "C04": dict(engine="native forked probes", category="fault_enumeration",
    technique="failpoint sweep: a real delivery raised at every step of the first registration (and bombardment of other threads), foreign handler and actions logging unique per-delivery sequence numbers and argument pointers",
-   text="Per trial the log must show the previous handler exactly once per delivered sequence number, first, with the kernel's info pointer; hundreds of deliveries per run go through the race-fallback path (the window between sigaction() and the publication of the slot).",
+   text="Per trial the log must show the previous handler exactly once per delivered sequence number, first, with the kernel's info pointer; hundreds of deliveries per run go through the race-fallback path (the window between sigaction() and the publication of the slot). Further histories: the foreign handler replaced between the library's look at the disposition and its sigaction(); the same foreign handler on two signals; another thread starting a first registration while this one is held right after its sigaction(); an application handler installed on top of the library's that chains back to it (must run once, not recurse).",
    note="arrival instants = hook sites, every instruction between them (trap-flag stepping of the registering thread; all in thorough, every 5th in quick) + random bombardment; chaining cannot be run under Miri"),
  "C05": dict(engine="native forked probes", category="exploration",
    technique="runtime monitoring against an executable reference model (per-signal ordered Vec of (id, tag)) with a delivery after every operation; sigaction(2) and a blocked read(2) as kernel oracles",
@@ -91,6 +91,6 @@ META.update({
    note="boundaries = failpoints deterministically, arbitrary instructions only for the allocator monitor"),
  "C18": dict(engine="native", category="exploration",
    technique="runtime monitoring: gate-orchestrated schedules with the writer's own barrier iterations as the clock, offline log rule on HL_B_SPIN vs bracket exits, stable-stuck-state probe at quiescent points of a free-running mutator mix",
-   text="Hundreds to thousands of gate trials (both slot roles, 1..3 held deliveries per wave) and a free-running mix with forbidden-signal panics and concurrent first registrations; all criteria count the writer's own iterations or rest on stability, never on elapsed time.",
+   text="Hundreds to thousands of gate trials (both slot roles, 1..3 held deliveries per wave) and a free-running mix with forbidden-signal panics and concurrent first registrations; all criteria count the writer's own iterations or rest on stability, never on elapsed time. A forked probe removes actions whose captured state calls the registry from its Drop (a guard that unregisters a companion; the last Handle of an iterator instance): on the unchanged tree that removal dead-locks - a genuine defect recorded as a known finding (known_findings.json, DESIGN.md section 6), reported as KNOWN-FINDING while every other C18 violation is still a VIOLATION. Mutators also remove actions whose captured state panics in Drop; no later registry call may panic.",
    note="bounded restatement of liveness; infinite adversarial delivery streams are out of reach for finite runs"),
 })
